@@ -155,6 +155,7 @@ def parseAct (j : Json) : R (Act V × Option Fault) := do
   | "writeInit" => return (.writeInit, f)
   | "load" => return (.load, f)
   | "factoryReset" => return (.factoryReset, f)
+  | "seterr" => return (.seterr (← fldStr j "name"), f)
   | a => throw s!"bad action {a}"
 
 def jpairs (l : List (String × V)) : Json := jarr (l.map (fun (k, v) => jarr [Json.str k, Json.str v]))
